@@ -53,3 +53,20 @@ Qed.
 (* next_frame: for every schedule, never Panic and never out of fuel (no wedge) *)
 Definition next_frame_no_panic_tcp := mbap_nf_no_panic.
 Definition next_frame_no_panic_rtu := rtu_nf_no_panic.
+
+(* whole sessions, both modes (stop at the first error / keep polling after framing errors), every
+   schedule: the run never panics and never runs out of fuel, i.e. the loop cannot wedge *)
+Theorem session_total_tcp : forall resume n fi,
+  snd (run_session KTcp resume n fi) <> EndPanic /\ snd (run_session KTcp resume n fi) <> EndOutOfFuel.
+Proof.
+  intros resume n fi. unfold run_session. apply (mbap_run_total _ resume buf_new n fi wf_new).
+  unfold run_fuel. cbn [reader_new r_buf buf_new buf_len b_pend app length]. pose proof (sbytes_le n). lia.
+Qed.
+Theorem session_total_rtu : forall p resume n fi, Forall bytes n ->
+  snd (run_session (match p with Request => KRtuRequest | Response => KRtuResponse end) resume n fi) <> EndPanic /\
+  snd (run_session (match p with Request => KRtuRequest | Response => KRtuResponse end) resume n fi) <> EndOutOfFuel.
+Proof.
+  intros p resume n fi Hb. unfold run_session.
+  assert (H := rtu_run_total p (run_fuel (reader_new (match p with Request => KRtuRequest | Response => KRtuResponse end)) n) resume buf_new n fi wf_new bytes_nil Hb).
+  destruct p; apply H; unfold run_fuel; cbn [reader_new r_buf buf_new buf_len b_pend app length]; pose proof (sbytes_le n); lia.
+Qed.
